@@ -66,6 +66,7 @@ type FnCtx struct {
 	topEntry         *State
 	constArrays      map[string]string
 	witnesses        []Witness
+	parentState      *State
 }
 
 type Frame struct {
@@ -86,6 +87,8 @@ type Frame struct {
 	entryReach string
 	iterGhost map[*ssa.Range]string
 	defers    []*deferred
+	iterFv    *FnVal // the closure passed to this (iterator) frame, when it carries iter invariants
+	iterCaller *Frame
 }
 
 type edgeIn struct {
@@ -674,6 +677,13 @@ func (fr *Frame) enterLoop(lp *Loop, ins []edgeIn) (*State, string) {
 		c.smt.assume(fmt.Sprintf("(forall ((r Int)) (! (=> (select %s r) (select %s r)) :pattern ((select %s r)) :pattern ((select %s r))))", preAlloc, postAlloc, postAlloc, preAlloc), "allocation only grows")
 	}
 	// assume the invariant
+	for _, it := range fr.iterInvariants(lp, s1) {
+		if it.err != nil {
+			fr.bindFailure(it.cl, it.err)
+			continue
+		}
+		c.smt.assume(implies(r0, it.term), "iter invariant: "+it.cl.Text)
+	}
 	if fr.contract != nil {
 		for _, cl := range fr.contract.loopClauses("invariant", lp.ordinal) {
 			env := fr.env(s1)
@@ -731,8 +741,125 @@ func (fr *Frame) checkFrameInvs(lp *Loop, st *State, reach, kind string) {
 	}
 }
 
+type iterInv struct {
+	cl   *Clause
+	text string
+	term string
+	err  error
+}
+
+// iterInvariants evaluates the iter invariants of the closure passed to an iterator frame
+// (Counters.Each etc.) at loop lp: `done(n, t)` is the set of entries already handed to the
+// closure, `iter` the map being iterated.
+func (fr *Frame) iterInvariants(lp *Loop, st *State) []iterInv {
+	if fr.iterFv == nil {
+		return nil
+	}
+	c := fr.c
+	ct := c.eng.contractOf(fr.iterFv.Fn)
+	if ct == nil || len(fr.fn.Params) == 0 {
+		return nil
+	}
+	// the ranges of the iterator: outer (larger loop) and inner
+	rangeOf := func(l *Loop) *ssa.Next {
+		for _, in := range l.header.Instrs {
+			if n, ok := in.(*ssa.Next); ok {
+				return n
+			}
+		}
+		return nil
+	}
+	var outer, inner *Loop
+	for _, l := range fr.loops.loops {
+		if rangeOf(l) == nil {
+			continue
+		}
+		if outer == nil || len(l.body) > len(outer.body) {
+			if outer != nil && inner == nil {
+				inner = outer
+			}
+			outer = l
+		} else if inner == nil {
+			inner = l
+		}
+	}
+	if outer == nil || inner == nil || (lp != outer && lp != inner) {
+		return nil
+	}
+	on, in := rangeOf(outer), rangeOf(inner)
+	or1, ok1 := on.Iter.(*ssa.Range)
+	ir1, ok2 := in.Iter.(*ssa.Range)
+	if !ok1 || !ok2 {
+		return nil
+	}
+	recv := fr.vals[fr.fn.Params[0]]
+	mt, ok := recv.T.Underlying().(*types.Map)
+	if !ok {
+		return nil
+	}
+	innerT := mt.Elem()
+	vis1 := st.ghost[fr.iterGhost[or1]]
+	var out []iterInv
+	env := c.calleeEnv(fr.iterFv.Fn, fr.iterFv, nil, st)
+	env.old = fr.iterCallerEntry()
+	env.parentEntry = fr.parentEntryOf(fr.iterFv.Fn)
+	env.names["iter"] = recv
+	m := c.termOf(recv)
+	hasIn := func(n, t string) string {
+		hasO, inner := c.mapRead(st, recv.T, m, n)
+		hasI, _ := c.mapRead(st, innerT, inner, t)
+		return and(hasO, hasI)
+	}
+	if lp == outer {
+		env.done = func(n, t string) string { return and(sel(vis1, n), hasIn(n, t)) }
+	} else {
+		// current outer key: Extract #1 of the outer Next
+		var kcur string
+		for _, ref := range *on.Referrers() {
+			if ex, ok := ref.(*ssa.Extract); ok && ex.Index == 1 {
+				if v, ok := fr.vals[ex]; ok {
+					kcur = c.termOf(v)
+				}
+			}
+		}
+		vis2, ok := st.ghost[fr.iterGhost[ir1]]
+		if kcur == "" || !ok {
+			return nil
+		}
+		env.done = func(n, t string) string {
+			return or(and(sel(vis1, n), not(eq(n, kcur)), hasIn(n, t)), and(eq(n, kcur), sel(vis2, t)))
+		}
+	}
+	for _, cl := range ct.clauses("iterinv") {
+		for _, cj := range conjuncts(cl.Expr) {
+			t, err := env.evalBool(cj)
+			out = append(out, iterInv{cl: cl, text: cj.String(), term: t, err: err})
+		}
+	}
+	return out
+}
+
+func (fr *Frame) iterCallerEntry() *State {
+	f := fr
+	for f.parent != nil {
+		f = f.parent
+	}
+	return f.entry
+}
+
 func (fr *Frame) checkInvariants(lp *Loop, st *State, reach, kind string, from *ssa.BasicBlock) {
 	fr.checkFrameInvs(lp, st, reach, kind)
+	for _, it := range fr.iterInvariants(lp, st) {
+		if it.err != nil {
+			fr.bindFailure(it.cl, it.err)
+			continue
+		}
+		pos := token.NoPos
+		if len(lp.header.Instrs) > 0 {
+			pos = lp.header.Instrs[0].Pos()
+		}
+		fr.oblige(kind, fmt.Sprintf("iter %s: %s", shortFn(fr.iterFv.Fn), it.text), reach, it.term, pos)
+	}
 	if fr.contract == nil {
 		return
 	}
